@@ -83,6 +83,7 @@ type fnTrans struct {
 	ghostVals map[string]sval
 	usedContracts map[string]bool
 	lockKeys  []lockKeyRef
+	quietSpec int
 	capturedBorrow map[ssa.Value]bool
 	curBlock *ssa.BasicBlock
 	rangeOf  map[ssa.Value]*ssa.Range
@@ -627,7 +628,50 @@ func (t *fnTrans) run() {
 			}
 		}
 	}
+	t.missingSites()
 	t.finishNames()
+}
+
+// missingSites: every site a contract clause is attached to must exist in the code.
+func (t *fnTrans) missingSites() {
+	fc := t.contract
+	if fc == nil {
+		return
+	}
+	have := map[string]bool{}
+	for _, s := range t.sites {
+		have[s] = true
+		have[s+".then"] = true
+		have[s+".else"] = true
+	}
+	check := func(label string, sl specLine) {
+		if have[label] {
+			return
+		}
+		o := t.oblige("contract", fmt.Sprintf("%s:%d:missing-site", sl.file, sl.line), token.NoPos, "false", "the code no longer has the site "+label+" this contract clause is attached to ["+sl.text+"]")
+		o.Trivial = false
+		o.Reach = "true"
+	}
+	for label, sls := range fc.at {
+		for _, sl := range sls {
+			check(label, sl)
+		}
+	}
+	for label, sls := range fc.atBefore {
+		for _, sl := range sls {
+			check(label, sl)
+		}
+	}
+	for label, sls := range fc.atAssume {
+		for _, sl := range sls {
+			check(label, sl)
+		}
+	}
+	for _, gl := range fc.ghost {
+		if _, _, site, ok := splitGhost(gl.text); ok {
+			check(site, gl)
+		}
+	}
 }
 
 func (t *fnTrans) enterBlock(b *ssa.BasicBlock) {
